@@ -39,7 +39,27 @@ impl NameDec {
     }
 }
 
+thread_local! {
+    /// framing-only mode: a name ends at its first pointer, which is not followed (where a pointer leads is then not
+    /// examined at all; labels and lengths cover the in-place part only)
+    static IN_PLACE_ONLY: std::cell::Cell<bool> = const { std::cell::Cell::new(false) };
+}
+
+/// run `f` with names read in place only (the 2 octets of a pointer are skipped, its target is not examined)
+pub fn with_in_place_names<T>(f: impl FnOnce() -> T) -> T {
+    struct Reset;
+    impl Drop for Reset {
+        fn drop(&mut self) {
+            IN_PLACE_ONLY.with(|x| x.set(false));
+        }
+    }
+    IN_PLACE_ONLY.with(|x| x.set(true));
+    let _reset = Reset;
+    f()
+}
+
 pub fn decode_name(buf: &[u8], off: usize) -> Result<NameDec, NameErr> {
+    let in_place_only = IN_PLACE_ONLY.with(|x| x.get());
     let mut pos = off;
     let mut next: Option<usize> = None;
     let mut d = NameDec {
@@ -84,6 +104,10 @@ pub fn decode_name(buf: &[u8], off: usize) -> Result<NameDec, NameErr> {
                 let target = (((b & 0x3f) as usize) << 8) | buf[pos + 1] as usize;
                 if next.is_none() {
                     next = Some(pos + 2);
+                }
+                if in_place_only {
+                    d.pointers.push((pos, target));
+                    break;
                 }
                 if target >= buf.len() {
                     return Err(NameErr::PointerOutOfRange);
